@@ -181,7 +181,10 @@ class ImportTools:
         return source
 
     def _is_transformable_to_normal(self, import_info):
-        return isinstance(import_info, FromImport)
+        return (
+            isinstance(import_info, FromImport)
+            and import_info.module_name != "__future__"
+        )
 
     def organize_imports(
         self,
